@@ -680,6 +680,7 @@ def _cfg_dataset(rng, tier):
         pm = [msgs[0], msgs[3], msgs[56], msgs[64], msgs[130]]
         for kind in PRESENTATIONS:
             q += [("%s@%s" % (fn, kind), m) for fn in ("ripemd160", "hash160", "double_sha256") for m in pm]
+        q += [("ripemd160@wiped", m) for m in pm + [msgs[1], msgs[55], msgs[119]]]     # buffer overwritten before .digest()
         out = run_worker(cfg, q)
         res[cfg] = [(fn, d, r) for (fn, d), r in zip(q, out)]
     _DATASET[key] = (msgs, res)
